@@ -230,6 +230,9 @@ pub fn prop() -> HistProp {
     p.odd_vamms = true;
     p.alien = true;
     p.fluct = false;
+    // one deployment in three hands its vAMMs to the insurance fund (the fund is then their admin and may close them whatever
+    // insurance fund they name)
+    p.fund_owned = true;
     let mut w = Weights::trading();
     w.pause = 7;
     w.setopen = 7;
